@@ -17,6 +17,8 @@ pub enum Mode {
     Find,    // C07
     Replace, // C08
     Faults,  // C18
+    /// C19: the same schedules as Find, judging only the work counters
+    Work,
 }
 
 struct SchedReader<'a> {
@@ -195,6 +197,7 @@ fn mm(m: aho_corasick::Match) -> M {
 }
 
 struct Item<'a> {
+    only_work: bool,
     pats: &'a Pats,
     kind: AhoCorasickKind,
     cap: usize,
@@ -276,6 +279,12 @@ impl<'a> Item<'a> {
             Ok(Ok(got)) => {
                 let gv: Vec<M> = got.iter().filter_map(|x| x.clone().ok()).collect();
                 let bad_err = got.iter().any(|x| x.is_err());
+                if self.only_work {
+                    if c.non_monotone != 0 || c.fail_excess != 0 {
+                        self.viol(rep, "stream-work", self.case("find", stream, &sched_full), format!("stream \"{}\" read sizes {:?}: a stream search re-issued transitions for positions it had already consumed, or followed more failure transitions than transitions: {:?}", shows(stream), sched_full, c));
+                    }
+                    return ex;
+                }
                 if gv != exp || bad_err {
                     self.viol(
                         rep,
@@ -408,14 +417,38 @@ impl<'a> Item<'a> {
             let r = catch_unwind(AssertUnwindSafe(|| {
                 let mut got: Vec<Result<M, String>> = vec![];
                 let mut it = self.ac.try_stream_find_iter(&mut rdr).map_err(|e| e.to_string())?;
+                let mut after_err: Option<bool> = None;
                 while let Some(x) = it.next() {
                     let e = x.is_err();
                     got.push(x.map(mm).map_err(|e| e.to_string()));
                     if e || got.len() > 4 * stream.len() + 8 {
+                        if e {
+                            // the injected fault is transient: a caller that keeps
+                            // iterating must not be told "end of stream" before the
+                            // reader itself reports it (further items are not judged)
+                            let mut n = 0;
+                            let mut ended = false;
+                            loop {
+                                match it.next() {
+                                    None => {
+                                        ended = true;
+                                        break;
+                                    }
+                                    Some(_) => {
+                                        n += 1;
+                                        if n > 4 * stream.len() + 8 {
+                                            break;
+                                        }
+                                    }
+                                }
+                            }
+                            after_err = Some(ended);
+                        }
                         break;
                     }
                 }
-                Ok::<_, String>(got)
+                drop(it);
+                Ok::<_, String>((got, after_err))
             }));
             st.add("executions", 1);
             st.add("fault_points", 1);
@@ -430,7 +463,18 @@ impl<'a> Item<'a> {
                     }
                 }
                 Ok(Err(e)) => self.viol(rep, "fault-build", case(), e),
-                Ok(Ok(got)) => {
+                Ok(Ok((got, after_err))) => {
+                    if after_err == Some(true) && !rdr.eof_reported {
+                        self.viol(
+                            rep,
+                            "early-end-of-stream-after-error",
+                            case(),
+                            format!(
+                                "read fault at call {} on stream \"{}\" read sizes {:?}: after the error item the iterator reported end of stream although the reader had delivered only {} of {} bytes and never returned Ok(0)",
+                                k, shows(stream), sched_full, rdr.pos, stream.len()
+                            ),
+                        );
+                    }
                     let okp: Vec<M> = got.iter().take_while(|x| x.is_ok()).map(|x| x.clone().unwrap()).collect();
                     let nerr = got.iter().filter(|x| x.is_err()).count();
                     if nerr != 1 || !exp.starts_with(&okp) {
@@ -504,7 +548,7 @@ impl<'a> Item<'a> {
     fn explore(&self, rep: &Report, st: &mut Stats, mode: Mode, stream: &[u8], bound: usize) -> u64 {
         let exp: Vec<M> = mem_find_iter(self.ac, stream);
         let exp_spec = self.spec.iter(Kind::Std, stream, 0, stream.len(), false);
-        if exp != exp_spec {
+        if exp != exp_spec && !self.only_work {
             // belongs to C02, but a stream check against a wrong in-memory
             // answer would be meaningless: report it as what it is
             self.viol(rep, "in-memory-vs-spec", self.case("find", stream, &[]), format!("in-memory find_iter on \"{}\" gives {:?}, SPEC {:?}", shows(stream), exp, exp_spec));
@@ -514,7 +558,7 @@ impl<'a> Item<'a> {
         while let Some((prefix, devs)) = stack.pop() {
             schedules += 1;
             let ex = match mode {
-                Mode::Find => self.run_find(rep, st, stream, &prefix, &exp),
+                Mode::Find | Mode::Work => self.run_find(rep, st, stream, &prefix, &exp),
                 Mode::Replace => self.run_replace(rep, st, stream, &prefix, &exp),
                 Mode::Faults => {
                     // fault-free run first to learn the complete schedule
@@ -600,7 +644,7 @@ fn default_capacity_sweep(rep: &Report, mode: Mode, fams: &[Pats]) {
         let spec = Spec::new(pats.clone(), false);
         let maxlen = pats.iter().map(|p| p.len()).max().unwrap();
         let cap = (maxlen * 8).max(64 * 1024);
-        let it = Item { pats, kind: w.kind, cap, ac: &ac, spec: &spec, reps: rep_tables(pats.len()) };
+        let it = Item { only_work: mode == Mode::Work, pats, kind: w.kind, cap, ac: &ac, spec: &spec, reps: rep_tables(pats.len()) };
         let bt = universe::bottom(pats);
         let n = cap + maxlen + 40;
         for p in pats.iter() {
@@ -632,7 +676,7 @@ fn default_capacity_sweep(rep: &Report, mode: Mode, fams: &[Pats]) {
                     aho_corasick::verif::set_stream_buffer_capacity(None);
                     st.add("default_capacity_runs", 1);
                     match mode {
-                        Mode::Find => {
+                        Mode::Find | Mode::Work => {
                             it.run_find_cap(rep, st, &stream, sc, &exp, false);
                         }
                         Mode::Replace => {
@@ -715,6 +759,8 @@ pub fn run(rep: &Report, mode: Mode) -> i32 {
         (Mode::Replace, true) => 9,
         (Mode::Faults, false) => 6,
         (Mode::Faults, true) => 8,
+        (Mode::Work, false) => 6,
+        (Mode::Work, true) => 8,
     };
     let dev_bound = if t { 3 } else { 2 };
     // completeness self-test of the DFS: with an unbounded buffer a stream of
@@ -786,7 +832,7 @@ pub fn run(rep: &Report, mode: Mode) -> i32 {
             }
         };
         let spec = Spec::new(pats.clone(), false);
-        let it = Item { pats, kind: w.kind, cap: w.cap, ac: &ac, spec: &spec, reps: rep_tables(pats.len()) };
+        let it = Item { only_work: mode == Mode::Work, pats, kind: w.kind, cap: w.cap, ac: &ac, spec: &spec, reps: rep_tables(pats.len()) };
         let alpha = universe::hay_alpha(pats, false);
         // full bound: every schedule of every stream up to maxlen (the
         // alphabet is sigma(P) + bottom; larger alphabets get shorter streams)
@@ -837,7 +883,12 @@ pub fn run(rep: &Report, mode: Mode) -> i32 {
     aho_corasick::verif::set_stream_buffer_capacity(None);
     default_capacity_sweep(rep, mode, &fams);
     let execs = rep.get("executions");
+    if mode == Mode::Work {
+        // evidence is written by the caller (C19 combines E1 and this sweep)
+        return 0;
+    }
     let (level, rule) = match mode {
+        Mode::Work => unreachable!(),
         Mode::Find => ("model_checking", "choice-prefix DFS over the reader's answers: for every pattern family x automaton kind x roll-buffer capacity (min+1, min+2, min+3, 2min, 8min via hook H1) x every stream over sigma(P)+bottom up to the full-bound length: every sequence of read sizes the free buffer space allows; each execution runs the real try_stream_find_iter to completion and is compared with the same searcher's in-memory find_iter (itself compared with SPEC); beyond the full bound: streams of 28-40 bytes with a bounded number of deviations from the maximal read"),
         Mode::Replace => ("model_checking", "as C07, on try_stream_replace_all (3 replacement tables x writers accepting all/1/2 bytes per call) and try_stream_replace_all_with (closure must be handed exactly stream[mat.range()] with absolute offsets); output compared with the splice of the in-memory find_iter"),
         Mode::Faults => ("fault_enumeration", "for every schedule of every stream (as C07): an injected read error at every read call index (stream_find_iter and stream replace) and a writer that fails after every number k of accepted bytes (with 1-byte short writes and without); oracle: no panic, exactly one error surfaced, matches before it are a prefix of the fault-free sequence, bytes written are a prefix of the fault-free output, end of stream only after the reader returned Ok(0)"),
@@ -892,7 +943,7 @@ pub fn replay(case: &J) -> i32 {
         }
     };
     let spec = Spec::new(pats.clone(), false);
-    let it = Item { pats: &pats, kind, cap, ac: &ac, spec: &spec, reps: rep_tables(pats.len()) };
+    let it = Item { only_work: false, pats: &pats, kind, cap, ac: &ac, spec: &spec, reps: rep_tables(pats.len()) };
     let rep = Report::new(&case.str_of("property"), "quick");
     let mut st = Stats::default();
     let exp: Vec<M> = mem_find_iter(&ac, &stream);
